@@ -4,6 +4,7 @@ import (
 	"context"
 	"errors"
 	"fmt"
+	"runtime"
 	"strings"
 	"sync"
 	"sync/atomic"
@@ -37,6 +38,7 @@ type c06Case struct {
 	StopFirst  bool          // Handler.Stop() of handler 1 is called (and Stopped() awaited) while m1 is inside its handler function, then Close arrives
 	FailSecond bool          // the second handler's Subscribe fails: Run returns an error from its start-up, the first handler keeps working
 	EarlyClose bool          // Close is called while Run is still subscribing the handlers (slow Subscribe calls), no messages
+	SingleP    bool          // run on its own with GOMAXPROCS(1): a goroutine that was just started (`go h.handleMessage`) then runs only after everything that is woken meanwhile -- the schedule in which "dispatched but not started" lasts longest
 	HCGate     bool          // every handler's close-watcher goroutine is held right before its select until Close has given its signal and Run has cancelled the handlers' context: both are visible when it looks
 	NilPub     bool          // the last handler was added with a nil Publisher (it returns no messages): at shutdown it is a handler like any other, with nothing to close
 	Conf       bool          // conformance run: internal hook events are recorded as well (RouterLifecycleImplTrace)
@@ -113,6 +115,15 @@ func runC06(c *Ctx) error {
 			cases = append(cases, c06Case{Class: "late-close-watchers/" + src, Source: src, Label: "", Closers: nc, Handlers: 3, Msgs: nc - 1, Timeout: 3 * time.Second, HCGate: true})
 		}
 	}
+	// dispatched-but-not-started: the message is released from the receive loop when Close has been called; with one P the invocation's
+	// goroutine is the last to run (every goroutine that Close's wait chain wakes goes first)
+	for _, src := range []string{"scripted", "gochannel"} {
+		for _, nc := range []int{1, 2} {
+			for k := 0; k < 3; k++ {
+				cases = append(cases, c06Case{Class: "single-p/received-then-released/" + src, Source: src, Label: "router.run.received", Second: k == 2, Closers: nc, Handlers: 1 + k%2, Msgs: 1 + k%2, Timeout: 3 * time.Second, SingleP: true})
+			}
+		}
+	}
 	// ... also when the subscriber's Close() drains (the receive loop does not end before the handler does)
 	cases = append(cases, c06Case{Class: "timeout-draining/scripted", Source: "scripted", Label: "handler", Closers: 1, Handlers: 1, Msgs: 1, Slow: 3 * time.Second, Timeout: 100 * time.Millisecond, Drain: true})
 	cases = append(cases, c06Case{Class: "timeout-draining/scripted", Source: "scripted", Label: "handler", Closers: 2, Handlers: 2, Msgs: 1, Slow: 3 * time.Second, Timeout: 150 * time.Millisecond, Drain: true, Repeat: true})
@@ -170,10 +181,21 @@ func runC06(c *Ctx) error {
 	}
 	var reached int64
 	Parallel(len(cases), func(i int) {
+		if cases[i].SingleP {
+			return
+		}
 		if c06RunC(runs[i], confRuns[i], cases[i]) {
 			atomic.AddInt64(&reached, 1)
 		}
 	})
+	// the single-P cases: one after the other, nothing else running in the process
+	oldP := runtime.GOMAXPROCS(1)
+	for i := range cases {
+		if cases[i].SingleP && c06RunC(runs[i], confRuns[i], cases[i]) {
+			atomic.AddInt64(&reached, 1)
+		}
+	}
+	runtime.GOMAXPROCS(oldP)
 	c.AddStat("conformance_runs", nconf)
 	c.AddStat("cases", len(cases))
 	c.AddStat("gates_reached", int(reached))
@@ -257,7 +279,7 @@ func c06RunC(r *tr.Run, rc *tr.Run, cs c06Case) (gateReached bool) {
 		hname := fmt.Sprintf("%sh%d", prefix, h)
 		pub := scripted.NewPub("pub")
 		pub.OnClose = func() {
-			if h%2 == 1 {
+			if h%2 == 1 && !cs.SingleP {
 				time.Sleep(12 * time.Millisecond) // a publisher that flushes: its Close takes a moment
 			}
 			r.Emit("pubclose") // (Close is about to return)
